@@ -1,6 +1,6 @@
 //go:build conn_insecure
 
-package main
+package dw
 
 import (
 	"bytes"
@@ -52,14 +52,14 @@ type fvar struct {
 	apply func(m protoreflect.Message)
 }
 
-type mutCfg struct {
-	ids    []string          // beacon ids known to the daemon (plus unknown ones)
-	hashes map[string][]byte // chain hashes of the daemon's chains
-	big    int               // size of the oversize byte / string fields
-	many   int               // length of the long repeated fields
+type MutCfg struct {
+	IDs    []string          // beacon ids known to the daemon (plus unknown ones)
+	Hashes map[string][]byte // chain hashes of the daemon's chains
+	Big    int               // size of the oversize byte / string fields
+	Many   int               // length of the long repeated fields
 }
 
-func (c mutCfg) scalarVariants(fd protoreflect.FieldDescriptor, cur protoreflect.Value, set func(m protoreflect.Message, v protoreflect.Value)) []fvar {
+func (c MutCfg) scalarVariants(fd protoreflect.FieldDescriptor, cur protoreflect.Value, set func(m protoreflect.Message, v protoreflect.Value)) []fvar {
 	var out []fvar
 	add := func(name string, v protoreflect.Value) {
 		out = append(out, fvar{name, func(m protoreflect.Message) { set(m, v) }})
@@ -68,8 +68,8 @@ func (c mutCfg) scalarVariants(fd protoreflect.FieldDescriptor, cur protoreflect
 	case protoreflect.BytesKind:
 		b := cur.Bytes()
 		if strings.Contains(strings.ToLower(string(fd.Name())), "chain_hash") {
-			for _, id := range c.ids {
-				if h := c.hashes[id]; h != nil && !bytes.Equal(h, b) {
+			for _, id := range c.IDs {
+				if h := c.Hashes[id]; h != nil && !bytes.Equal(h, b) {
 					add("hash-of:"+id, protoreflect.ValueOfBytes(h))
 				}
 			}
@@ -77,7 +77,7 @@ func (c mutCfg) scalarVariants(fd protoreflect.FieldDescriptor, cur protoreflect
 		add("one-byte", protoreflect.ValueOfBytes([]byte{0}))
 		add("32xff", protoreflect.ValueOfBytes(bytes.Repeat([]byte{0xff}, 32)))
 		add("96x00", protoreflect.ValueOfBytes(make([]byte, 96)))
-		add("big", protoreflect.ValueOfBytes(make([]byte, c.big)))
+		add("big", protoreflect.ValueOfBytes(make([]byte, c.Big)))
 		if len(b) > 1 {
 			add("truncated", protoreflect.ValueOfBytes(append([]byte{}, b[:len(b)-1]...)))
 			add("two-bytes", protoreflect.ValueOfBytes(append([]byte{}, b[:2]...)))
@@ -92,10 +92,10 @@ func (c mutCfg) scalarVariants(fd protoreflect.FieldDescriptor, cur protoreflect
 		}
 	case protoreflect.StringKind:
 		add("unknown", protoreflect.ValueOfString("nope"))
-		add("big", protoreflect.ValueOfString(strings.Repeat("a", c.big/16)))
+		add("big", protoreflect.ValueOfString(strings.Repeat("a", c.Big/16)))
 		add("odd", protoreflect.ValueOfString("[::1/\x01 %zz"))
 		if strings.Contains(strings.ToLower(string(fd.Name())), "beaconid") {
-			for _, id := range c.ids {
+			for _, id := range c.IDs {
 				if id != cur.String() {
 					add("id:"+id, protoreflect.ValueOfString(id))
 				}
@@ -133,7 +133,7 @@ func (c mutCfg) scalarVariants(fd protoreflect.FieldDescriptor, cur protoreflect
 	return out
 }
 
-func (c mutCfg) fieldVariants(fd protoreflect.FieldDescriptor, m protoreflect.Message) []fvar {
+func (c MutCfg) fieldVariants(fd protoreflect.FieldDescriptor, m protoreflect.Message) []fvar {
 	var out []fvar
 	switch {
 	case fd.IsMap():
@@ -158,7 +158,7 @@ func (c mutCfg) fieldVariants(fd protoreflect.FieldDescriptor, m protoreflect.Me
 				out = append(out, fvar{"many", func(mm protoreflect.Message) {
 					ll := mm.Mutable(fd).List()
 					first := ll.Get(0).Message().Interface()
-					for i := 0; i < c.many; i++ {
+					for i := 0; i < c.Many; i++ {
 						ll.Append(protoreflect.ValueOfMessage(proto.Clone(first).ProtoReflect()))
 					}
 				}})
@@ -189,7 +189,7 @@ func (c mutCfg) fieldVariants(fd protoreflect.FieldDescriptor, m protoreflect.Me
 				out = append(out, fvar{"many", func(mm protoreflect.Message) {
 					ll := mm.Mutable(fd).List()
 					first := ll.Get(0)
-					for i := 0; i < c.many; i++ {
+					for i := 0; i < c.Many; i++ {
 						ll.Append(first)
 					}
 				}})
@@ -212,7 +212,7 @@ func (c mutCfg) fieldVariants(fd protoreflect.FieldDescriptor, m protoreflect.Me
 
 // variants enumerates the base message and every single-field change of it, recursively through the nested
 // messages that are present (first element of repeated messages).
-func (c mutCfg) variants(root proto.Message) []variant {
+func (c MutCfg) variants(root proto.Message) []variant {
 	out := []variant{{desc: "base", msg: proto.Clone(root)}}
 	var rec func(path []pstep, m protoreflect.Message)
 	rec = func(path []pstep, m protoreflect.Message) {
